@@ -432,6 +432,26 @@ class Check(PropertyCheck):
                 self.add_flow(rng, case)
                 yield case
                 continue
+            if sv == 2 and rng.chance(0.18):
+                # timing: the response completes before / between / after the pieces of a STREAMED request body,
+                # optionally with a second exchange opened in between
+                case["stream"] = 1
+                body = bytes((rng.getrandbits(8) + 5 * k) % 251 for k in range(rng.randint(2, 60)))
+                chunks = rng.randint(1, 4)
+                rq = case["req"]
+                rq["body_hex"] = hx(body); rq["chunks"] = chunks; rq.pop("trailers", None)
+                if cv == 2:
+                    blk = [(k, b"POST" if k == b":method" else v) for k, v in U(rq["block"]) if k not in (b"content-length", b"content-encoding")]
+                    if rng.chance(0.5): blk.append((b"content-length", b"%d" % len(body)))
+                    rq["block"] = P(blk)
+                else:
+                    rq["method"] = hx(b"POST"); rq["framing"] = "cl"
+                    rq["fields"] = P([(k, v) for k, v in U(rq["fields"]) if k.lower() not in (b"content-length", b"transfer-encoding", b"content-encoding")]
+                                     + [(b"Content-Length", b"%d" % len(body))])
+                npieces = len(range(0, len(body), max(1, -(-len(body) // chunks))))
+                case["early"] = {"after": rng.randint(0, npieces), "second": bool(cv == 2 and rng.chance(0.5))}
+                yield case
+                continue
             if not case["stream"] and rng.chance(0.15):
                 case["replay"] = [rng.pick([1, 2]) for _ in range(rng.randint(1, 2))]
             r = rng.random()
@@ -555,7 +575,49 @@ class Check(PropertyCheck):
                 rig.flush_peers(); rig.settle()
 
         # ---- request
-        if cv == 2:
+        early = case.get("early")
+        responded = False
+        if early:
+            # the server completes its response after `after` pieces of the streamed request body (0 = before any),
+            # optionally a second exchange is opened in between; the rest of the body and its end follow
+            rq = case["req"]
+            body = unhx(rq["body_hex"]); k = max(1, rq.get("chunks", 1)); n = max(1, -(-len(body) // k))
+            pieces = [body[i:i + n] for i in range(0, len(body), n)]
+
+            def respond_now():
+                nonlocal responded
+                labs = w.server_labels()
+                if not labs: return
+                sp_ = rig.speer(labs[0])
+                if sp_.order and not responded:
+                    responded = self.h2_send(sp_, sp_.order[0], case["resp"])
+                    rig.flush_peers(); rig.settle()
+                if early.get("second") and cv == 2:
+                    cp_ = rig.cpeer
+                    cp_.do(cp_.c.send_headers, 3, [(b":method", b"GET"), (b":scheme", b"http"), (b":path", b"/second"),
+                                                   (b":authority", b"example.com")], end_stream=True)
+                    rig.flush_peers(); rig.settle()
+            if cv == 2:
+                cp_ = rig.cpeer
+                blk = U(rq["block"])
+                if not blk or not cp_.do(cp_.c.send_headers, 1, blk, end_stream=False): raise Skip()
+                rig.flush_peers(); rig.settle()
+                for j, piece in enumerate(pieces):
+                    if j == early["after"]: respond_now()
+                    cp_.do(cp_.c.send_data, 1, piece, end_stream=False)
+                    rig.flush_peers(); rig.settle()
+                if early["after"] >= len(pieces): respond_now()
+                cp_.do(cp_.c.send_data, 1, b"", end_stream=True)
+                rig.flush_peers()
+            else:
+                raw = self.h1_request_bytes(dict(rq, framing="cl"))
+                head_end = raw.index(b"\r\n\r\n") + 4
+                rig.client_send(raw[:head_end]); rig.settle()
+                for j, piece in enumerate(pieces):
+                    if j == early["after"]: respond_now()
+                    rig.client_send(piece); rig.settle()
+                if early["after"] >= len(pieces): respond_now()
+        elif cv == 2:
             # with streaming on, the head goes first so that the upstream peer's SETTINGS are known before the body
             pause = (lambda: (rig.flush_peers(), rig.settle())) if (flow and st) else None
             if not self.h2_send(rig.cpeer, 1, case["req"], after_headers=pause): raise Skip()
@@ -566,8 +628,7 @@ class Check(PropertyCheck):
         drip("server")
         labels = w.server_labels()
         # ---- response (only if the request reached an upstream connection)
-        responded = False
-        if labels:
+        if labels and not early:
             lab = labels[0]
             if sv == 2:
                 sp = rig.speer(lab)
@@ -625,7 +686,7 @@ class Check(PropertyCheck):
                 replays.append(self.replay_pass(flow0, rsv))
         if "request" in stored:
             stored["request"][1] = strip(snapshot(flow0).get("request"), st)
-        return {"up": up, "down": down, "hooks": [n for n, _, _ in rig.snap], "responded": bool(responded),
+        return {"up": up, "down": down, "hooks": [n for n, _, i in rig.snap if i <= 0], "responded": bool(responded),
                 "crash": [e[0] + ": " + e[1][:80] for e in w.errors], "stored": stored, "replays": replays}
 
     def replay_pass(self, flow, sv):
@@ -677,7 +738,7 @@ class Check(PropertyCheck):
         return {"sv": sv, "up": up, "hooks": hooks, "responded": bool(responded),
                 "crash": [e[0] + ": " + e[1][:80] for e in w.errors]}
 
-    def _judge_request(self, rq, cv, sv, up, hooks, responded):
+    def _judge_request(self, rq, cv, sv, up, hooks, responded, second=False):
         """the conversion oracle for one request as seen by the next hop -> (failures, what was forwarded)"""
         fails = []
         forwarded_req = None
@@ -709,8 +770,16 @@ class Check(PropertyCheck):
             else:
                 if up.get("failure"):
                     fails.append(f"upstream h2 peer rejects what mitmproxy sent: {up['failure']}")
-                if len(up.get("streams", [])) > 1:
+                nstreams = len(up.get("streams", []))
+                if nstreams > (2 if second else 1):
                     fails.append("one request opened several upstream streams")
+                if second and nstreams == 2:
+                    # the second exchange: its own (empty) body and END_STREAM on its own upstream stream
+                    s2 = up["streams"][1]
+                    p2 = dict(U(s2["headers"] or [])).get(b":path")
+                    if p2 != b"/second" or unhx(s2["body_hex"]) != b"" or s2["trailers"] is not None:
+                        fails.append(f"the second request's upstream stream carries what belongs to the first: path {p2!r}, "
+                                     f"{len(unhx(s2['body_hex']))} body bytes, trailers {s2['trailers'] is not None}")
                 for s in up.get("streams", [])[:1]:
                     if s["headers"] is not None and s["ended"]:
                         blk = U(s["headers"]); ps, fs = split_block(blk); d = dict(ps)
@@ -722,6 +791,11 @@ class Check(PropertyCheck):
                                          "trailers": None if s["trailers"] is None else U(s["trailers"])}
                         if any(k != k.lower() for k, _ in fs):
                             fails.append(f"upper-case field name sent over HTTP/2: {fs!r}")
+                    elif (s["headers"] is not None and s["reset"] is None and "request" in hooks and "error" not in hooks
+                          and not up.get("failure")):
+                        # the exchange went through without an error, so the request must have been ended on its stream
+                        fails.append(f"upstream HTTP/2 request stream was never ended although the exchange completed "
+                                     f"({len(unhx(s['body_hex']))} body bytes arrived)")
         if forwarded_req is not None:
             f = forwarded_req
             if not rq.wellformed and cv == 1:
@@ -755,7 +829,8 @@ class Check(PropertyCheck):
         cv, sv = case["cv"], case["sv"]
         rq = Src(case, "req")
         up, down = obs["up"], obs["down"]
-        rfails, forwarded_req = self._judge_request(rq, cv, sv, up, obs["hooks"], obs["responded"])
+        rfails, forwarded_req = self._judge_request(rq, cv, sv, up, obs["hooks"], obs["responded"],
+                                                    second=bool((case.get("early") or {}).get("second")) and cv == 2)
         fails += rfails
         # ---- the same request object sent again (client replay of the recorded flow): judged by the same oracle
         if forwarded_req is not None and not rfails and rq.wellformed:
@@ -984,6 +1059,9 @@ class Check(PropertyCheck):
         if "trailers" in case["req"] or "trailers" in case["resp"]: out.append("trailers")
         if obs.get("replays"): out.append(f"replayed x{len(obs['replays'])}")
         if obs.get("stored"): out.append("stored-message-compared")
+        if case.get("early"):
+            out.append("early-response:" + ("before-body" if case["early"]["after"] == 0 else "mid/after-body"))
+            if case["early"].get("second"): out.append("early-response:second-exchange")
         if case.get("flow"):
             out.append("flow-control")
             wins = [x for x in (case["flow"].get("c_iws"), case["flow"].get("s_iws")) if x]
